@@ -729,8 +729,10 @@ where
         self: &'a mut Pin<&mut Self>,
         cx: &mut Context<'_>,
     ) -> Poll<Option<Result<(), C::Error>>> {
-        while self.channel_pin_mut().poll_ready(cx)?.is_pending() {
+        if self.channel_pin_mut().poll_ready(cx)?.is_pending() {
             ready!(self.channel_pin_mut().poll_flush(cx)?);
+            // Flushing may have made room. If it did not, yield: poll_ready registered a wakeup.
+            ready!(self.channel_pin_mut().poll_ready(cx)?);
         }
         Poll::Ready(Some(Ok(())))
     }
